@@ -37,6 +37,14 @@ STAGES = {
     ],
 }
 
+# Sanitizer stages (thorough tier): the same monitors and workloads (quick size) re-run with the
+# library built under AddressSanitizer, and under valgrind memcheck (uninitialised-value use in the
+# unsafe read paths), for the properties whose code reaches unsafe code / FFI buffers.
+for _p in ("C01", "C04", "C05", "C06", "C07", "C10", "C12", "C13", "C14", "C16", "C17", "C20"):
+    STAGES[_p].append(S("asan", "asan", tiers=("thorough",), tier_as="quick", timeout=3000))
+for _p in ("C01", "C04", "C05", "C07", "C17"):
+    STAGES[_p].append(S("memcheck", "valgrind", tiers=("thorough",), tier_as="quick", timeout=3000))
+
 LEVELS = {
     "C02": "exploration",
     "C03": "fault_enumeration",
